@@ -76,6 +76,7 @@ type faultWorld struct {
 	closed  atomic.Int32
 	useAcc  bool
 	inCalls atomic.Int32 // resolver/accessor calls in flight
+	fired   atomic.Int32 // faults on files that do not exist (the descriptor.proto probe) that actually fired
 }
 
 type panicValue struct{ file string }
@@ -89,10 +90,20 @@ func (w *faultWorld) resolver() protocompile.Resolver {
 			w.cancel()
 		}
 		s, ok := w.src[name]
+		f := w.plan.Files[name]
 		if !ok {
+			// a file that does not exist can still be the place of a fault: the compiler probes for an
+			// overridden google/protobuf/descriptor.proto, and that call can fail or panic like any other
+			switch f.Kind {
+			case "error", "accessor-error":
+				w.fired.Add(1)
+				return protocompile.SearchResult{}, w.errs[name]
+			case "panic", "accessor-panic":
+				w.fired.Add(1)
+				panic(w.panics[name])
+			}
 			return protocompile.SearchResult{}, fmt.Errorf("file not found: %s", name)
 		}
-		f := w.plan.Files[name]
 		switch f.Kind {
 		case "error", "accessor-error":
 			return protocompile.SearchResult{}, w.errs[name]
@@ -168,6 +179,12 @@ func runFaultCase(r *vlib.Run, p *vlib.Perturber, id, gname string, g importGrap
 		w.errs[n] = fmt.Errorf("injected-error-for-%s", n)
 		w.panics[n] = &panicValue{file: n}
 	}
+	for n := range plan.Files {
+		if _, ok := w.errs[n]; !ok {
+			w.errs[n] = fmt.Errorf("injected-error-for-%s", n)
+			w.panics[n] = &panicValue{file: n}
+		}
+	}
 	ctx, cancel := context.WithCancel(context.Background())
 	w.cancel = cancel
 	defer cancel()
@@ -238,6 +255,34 @@ func runFaultCase(r *vlib.Run, p *vlib.Perturber, id, gname string, g importGrap
 		}
 	}
 	r.Class("plan:" + classOfPlan(plan))
+	if pf, ok := plan.Files["google/protobuf/descriptor.proto"]; ok && w.fired.Load() > 0 && nf == 0 && plan.CancelAfter == 0 {
+		// the probe for an overridden descriptor.proto faulted. The file is optional and the compiler documents that a
+		// failure or a panic of this one call means "no override", so a successful compilation is fine; what is
+		// required is that Compile returned (decided above) and that an error, if any, is the injected one.
+		switch pf.Kind {
+		case "panic":
+			var pe protocompile.PanicError
+			if errors.As(out.Err, &pe) && pe.Value != w.panics["google/protobuf/descriptor.proto"] {
+				r.Violation("c07.panic-value-lost", "descriptor.proto probe panicked: PanicError does not carry the panic value", id, wit)
+			} else if out.Err != nil && !errors.As(out.Err, &pe) {
+				r.Violation("c07.spurious-failure", "descriptor.proto probe panicked: Compile failed with another error: "+gen.ClassifyErr(out.Err.Error()), id, wit)
+			}
+			r.Class("probe-panic:returned")
+		default:
+			if out.Err != nil && !errors.Is(out.Err, w.errs["google/protobuf/descriptor.proto"]) {
+				r.Violation("c07.error-not-propagated", "descriptor.proto probe failed: Compile failed with an error that does not wrap the injected one", id, wit)
+			}
+			r.Class("probe-error:returned")
+		}
+	}
+	// every source the compiler was handed has been closed by the time Compile has returned and its goroutines are gone
+	// (an unclosed stream keeps whatever feeds it blocked for good)
+	defer func() {
+		if h, c := w.handed.Load(), w.closed.Load(); c < h {
+			wit["sources_handed"], wit["sources_closed"] = h, c
+			r.Violation("c07.source-not-closed", classOfPlan(plan)+": a source handed to the compiler was never closed", id, wit)
+		}
+	}()
 	// no goroutine of the compiler may remain once in-flight harness calls have returned
 	leaked, undecided, dump := waitNoLibraryGoroutines()
 	if leaked {
